@@ -59,7 +59,7 @@ type corrOpts struct {
 
 var suites = map[string]func(o corrOpts) *res.Summary{
 	"iset":    func(o corrOpts) *res.Summary { return corrISet(o.tier, o.seed, o.replay) },
-	"excerpt": func(o corrOpts) *res.Summary { return corrExcerpt(o.tier, o.seed, o.replay) },
+	"excerpt": corrExcerpt,
 	"cfg":     corrCfg,
 	"gram":    corrGram,
 	"progdir": corrProgDir,
